@@ -64,8 +64,10 @@ def index_loop_lookup(fb, look, vec, L):
     return ok, "index loop lookup: whole range=%s, ++i=%s, returns i on match=%s, returns size() when absent=%s, predicate element-key == id=%s" % (whole, step, ret_i, ret_n, pred)
 
 
-def type_guard(facts_list, kind_value, pol=True):
+def type_guard(facts_list, kind_value, pol=True, fn=None):
     for a in facts_list:
+        if a[0] == "cmp" and fn is not None:
+            a = ("cmp", facts.xcanon(fn, a[4]), a[2], facts.xcanon(fn, a[5]), facts.expand(fn, a[4]), facts.expand(fn, a[5]))
         if a[0] == "cmp" and a[2] == ("==" if pol else "!="):
             if (const_value(a[5]) == kind_value and "getType" in a[1]) or (const_value(a[4]) == kind_value and "getType" in a[3]):
                 return a
@@ -163,7 +165,7 @@ def run(ctx):
                                 g = a
                 res.check(g is not None and f is upd, "C16-R2", key, n.get("loc"), "push_back only when the lookup returned the element count (key absent)",
                           "push_back onto %s is not guarded by 'lookup == count': duplicate entries for one id become possible" % vec.split("::")[-1])
-                tg = type_guard(fs, pt[L["kind"]]) if L["kind"] == "cmStatMsg" else True
+                tg = type_guard(fs, pt[L["kind"]], fn=f) if L["kind"] == "cmStatMsg" else True
                 if L["kind"] == "cmStatMsg":
                     res.check(tg is not None, "C16-R3", "%s:create-kind" % short, n.get("loc"), "device entry created only for a capture-module status message",
                               "a device entry is created for packets that are not capture-module status messages")
@@ -223,10 +225,10 @@ def run(ctx):
     mf = MustFacts(du)
     for d, kind, n in writes_of(du):
         if d == NS + "DeviceStatus::devicePacket" or (isinstance(n, dict) and n.get("k") == "call" and n.get("op") == "=" and d.startswith(NS + "DeviceStatus::")):
-            res.check(type_guard(mf.at(n), 0x0301) is not None, "C16-R3", "DeviceStatus::update:device-packet", n.get("loc"),
+            res.check(type_guard(mf.at(n), 0x0301, fn=du) is not None, "C16-R3", "DeviceStatus::update:device-packet", n.get("loc"),
                       "device packet replaced only by a capture-module status message", "device packet is overwritten by messages of another kind")
     for c in du.calls(NS + "DeviceStatus::updateInterfaces"):
-        res.check(type_guard(mf.at(c), 0x0302) is not None, "C16-R3", "DeviceStatus::update:interfaces", c.get("loc"),
+        res.check(type_guard(mf.at(c), 0x0302, fn=du) is not None, "C16-R3", "DeviceStatus::update:interfaces", c.get("loc"),
                   "interfaces updated only by an interface status message", "interface entries are updated by messages of another kind")
     wr = [(d, k) for d, k, n in writes_of(du)]
     iu = fb.fn(NS + "InterfaceStatus::update")
